@@ -215,33 +215,87 @@ class Rendered:
         return len(self.eigenbasis)
 
 
-def _c6_table():
-    p = common.REPO / "pulser-core/pulser/devices/interaction_coefficients/C6_coeffs.json"
-    return {int(k): float(v) for k, v in json.loads(p.read_text()).items()}
+# C6/hbar per Rydberg level (rad/us * um^6): the published constant table, copied here so that the expected
+# interaction does not depend on the tree's C6_coeffs.json / BaseDevice.interaction_coeff
+C6_TABLE = {
+    50: 96120.72, 51: 122241.6, 52: 154693.02, 53: 194740.36, 54: 243973.91, 55: 304495.01, 56: 378305.98,
+    57: 468027.05, 58: 576714.85, 59: 707911.38, 60: 865723.02, 61: 1054903.11, 62: 1281042.11, 63: 1550531.15,
+    64: 1870621.31, 65: 2249728.57, 66: 2697498.69, 67: 3224987.51, 68: 3844734.37, 69: 4571053.32,
+    70: 5420158.53, 71: 6410399.4, 72: 7562637.31, 73: 8900342.14, 74: 10449989.62, 75: 12241414.53,
+    76: 14308028.03, 77: 16687329.94, 78: 19421333.62, 79: 22557029.94, 80: 26146720.74, 81: 30248886.65,
+    82: 34928448.69, 83: 40257623.67, 84: 46316557.88, 85: 53194043.52, 86: 60988354.64, 87: 69808179.15,
+    88: 79773468.88, 89: 91016513.07, 90: 103677784.57, 91: 117933293.96, 92: 133943541.9, 93: 151907135.94,
+    94: 172036137.34, 95: 194562889.89, 96: 219741590.56, 97: 247850178.91, 98: 279192193.77, 99: 314098829.39,
+    100: 352931119.11,
+}
+# documented constants of the stock devices (constructor arguments in pulser/devices/_devices.py, _mock_device.py)
+STOCK_LEVEL = {"MockDevice": 70, "DigitalAnalogDevice": 70, "AnalogDevice": 60}
+STOCK_C3 = 3700.0
+DEFAULT_FIELD = [0.0, 0.0, 30.0]          # Sequence.set_magnetic_field defaults / XY mode default
+CH_BASIS = {"rydberg": "ground-rydberg", "raman": "digital", "mw": "XY"}
 
 
-def render(seq) -> Rendered:
-    """Per-channel pulse contributions read from the scheduler's slots."""
-    from pulser.channels.dmm import DMM
+def render(seq, case=None, ops=None) -> Rendered:
+    """Per-channel pulse contributions read from the scheduler's slots.
+
+    With `case` (and the list `ops` of the operations the API accepted) everything the USER programmed is taken
+    from the program text, not from the objects under test: atom order and coordinates, Rydberg level -> C6
+    (own table), C3, magnetic field, SLM targets, detuning-map weights, basis / addressing of each channel (from
+    its device id), EOM left open or closed.  What stays read from the real objects: the scheduler's slots
+    (times, targets, pulse phase: C02/C03/C07), waveform samples (C16), the detuning_off chosen by EOM mode
+    (C15), trap coordinates of a calibrated layout (C19)."""
     from pulser.pulse import Pulse
 
     reg = seq.register
-    ids = list(reg.qubit_ids)
-    coords = []
-    for q in ids:
-        c = [float(x) for x in np.asarray(reg.qubits[q].as_array() if hasattr(reg.qubits[q], "as_array")
-                                          else reg.qubits[q], dtype=float)]
-        coords.append(c + [0.0] * (3 - len(c)))
+    if case is not None and not case["reg"].get("layout"):
+        ids = [a[0] for a in case["reg"]["atoms"]]
+        coords = [[float(x) for x in a[1]] + [0.0] * (3 - len(a[1])) for a in case["reg"]["atoms"]]
+    else:
+        ids = [a[0] for a in case["reg"]["atoms"]] if case is not None else list(reg.qubit_ids)
+        coords = []
+        for q in ids:       # calibrated layout: trap id -> coordinates is C19's
+            c = [float(x) for x in np.asarray(reg.qubits[q].as_array() if hasattr(reg.qubits[q], "as_array")
+                                              else reg.qubits[q], dtype=float)]
+            coords.append(c + [0.0] * (3 - len(c)))
+    ops = list(ops if ops is not None else (case["ops"] if case is not None else []))
+    ch_id = {o["name"]: o["id"] for o in ops if o["k"] == "channel"}
+    # candidate per-atom weight vectors of the DMM channels, from the program text
+    dmm_candidates = []
+    for o in ops:
+        if o["k"] == "detmap":
+            wd = {}
+            for q, w in o["weights"]:
+                wd[q] = wd.get(q, 0.0) + float(w)
+            dmm_candidates.append([wd.get(q, 0.0) for q in ids])
+        elif o["k"] == "slm":       # Ising: "a DetuningMap where the detuning of each masked qubit is 1.0"
+            dmm_candidates.append([1.0 if q in o["q"] else 0.0 for q in ids])
+    slm_targets = next((list(o["q"]) for o in ops if o["k"] == "slm"), None)
+    eom_open = {}
+    for o in ops:
+        if o["k"] == "eom_on":
+            eom_open[o["ch"]] = True
+        elif o["k"] == "eom_off":
+            eom_open[o["ch"]] = False
     contribs = []
     T = 0
     xy = False
     first_global = None     # (ti, tf) of the earliest-starting first pulse of a global drive channel
     open_eom = []
     for name, sch in seq._schedule.items():
-        ch = sch.channel_obj
-        is_dmm = isinstance(ch, DMM)
-        cls = "D" if is_dmm else ("G" if ch.addressing == "Global" else "L")
-        if ch.basis == "XY":
+        if case is not None:
+            is_dmm = name not in ch_id
+            if is_dmm:
+                basis, cls = "ground-rydberg", "D"
+            else:
+                kind, addr = ch_id[name].split("_")[0], ch_id[name].split("_")[1]
+                basis, cls = CH_BASIS[kind], ("G" if addr == "global" else "L")
+        else:
+            from pulser.channels.dmm import DMM
+
+            ch = sch.channel_obj
+            is_dmm = isinstance(ch, DMM)
+            basis, cls = ch.basis, ("D" if is_dmm else ("G" if ch.addressing == "Global" else "L"))
+        if basis == "XY":
             xy = True
         if is_dmm:
             dm = sch.detuning_map
@@ -255,12 +309,24 @@ def render(seq) -> Rendered:
                     if all(abs(a - b) <= 1e-6 for a, b in zip(trc, c)):
                         w += float(wt)
                 weights.append(w)
+            if case is not None:
+                # the map object only ROUTES to one of the programmed weight vectors; the values are the program's
+                match = [v for v in dmm_candidates if all(abs(a - b) <= 1e-12 for a, b in zip(v, weights))]
+                if not match:
+                    raise RenderMismatch(f"DMM channel {name!r} carries weights {weights} but the program "
+                                         f"configured {dmm_candidates}")
+                weights = list(match[0])
+        if case is not None:
+            is_open = bool(eom_open.get(name, False))
+        else:
+            blocks0 = list(getattr(sch, "eom_blocks", []) or [])
+            is_open = bool(blocks0 and blocks0[-1].tf is None)
         blocks = list(getattr(sch, "eom_blocks", []) or [])
-        if blocks and blocks[-1].tf is None and sch.slots and sch.slots[-1].ti >= 0:
+        if is_open and blocks and sch.slots and sch.slots[-1].ti >= 0:
             # the channel is left in EOM mode: while it idles (after its last instruction, until the end of the
             # sequence) its detuning stays at detuning_off.  A CLOSED block leaves nothing behind: detuning 0.
             last = sch.slots[-1]
-            open_eom.append((name, ch.basis, cls, last.tf, float(blocks[-1].detuning_off),
+            open_eom.append((name, basis, cls, last.tf, float(blocks[-1].detuning_off),
                              [1.0 if (cls == "G" or q in last.targets) else 0.0 for q in ids]))
         seen_first = False
         for slot in sch.slots:
@@ -273,7 +339,7 @@ def render(seq) -> Rendered:
             det = np.asarray(p.detuning.samples.as_array(), dtype=float)
             if not is_dmm:
                 weights = [1.0 if (cls == "G" or q in slot.targets) else 0.0 for q in ids]
-            contribs.append(Contribution(name, ch.basis, cls, slot.ti, slot.tf, amp, det, float(p.phase),
+            contribs.append(Contribution(name, basis, cls, slot.ti, slot.tf, amp, det, float(p.phase),
                                          list(weights)))
             if cls == "G" and not seen_first:
                 # Pulse.ConstantPulse(dur, 0, delta, phi) is a "detuned delay" (what delays / EOM buffers are made
@@ -288,9 +354,11 @@ def render(seq) -> Rendered:
         if t_end <= T:
             m = T + 1 - t_end
             contribs.append(Contribution(name, basis, cls, t_end, T + 1, np.zeros(m), np.full(m, det_off), 0.0, w))
+    if case is None:
+        slm_targets = list(seq._slm_mask_targets) or None
     mask, mask_end = [], 0
-    if xy and seq._slm_mask_targets and first_global is not None:
-        mask = sorted(ids.index(q) for q in seq._slm_mask_targets)
+    if xy and slm_targets and first_global is not None:
+        mask = sorted(ids.index(q) for q in slm_targets)
         mask_end = first_global[1]
     used = []
     for b in BASES:
@@ -301,10 +369,21 @@ def render(seq) -> Rendered:
     else:
         states = set().union(*(EIGENSTATES[b] for b in used))
     eigenbasis = [s for s in STATES_RANK if s in states]
-    level = int(seq.device.rydberg_level)
-    field = [float(x) for x in seq.magnetic_field] if xy else None
-    return Rendered(ids, coords, T, xy, field, contribs, mask, mask_end, used, eigenbasis,
-                    _c6_table()[level], (float(seq.device.interaction_coeff_xy) if xy else None), level)
+    if case is not None:
+        d = case["device"]
+        level = int(d["rydberg_level"]) if d.get("rydberg_level") is not None else STOCK_LEVEL[d["base"]]
+        c3 = float(d.get("c3") or STOCK_C3)
+        field = next(([float(x) for x in o["b"]] for o in ops if o["k"] == "field"), list(DEFAULT_FIELD))
+    else:
+        level = int(seq.device.rydberg_level)
+        c3 = float(seq.device.interaction_coeff_xy) if xy else None
+        field = [float(x) for x in seq.magnetic_field]
+    return Rendered(ids, coords, T, xy, (field if xy else None), contribs, mask, mask_end, used, eigenbasis,
+                    C6_TABLE[level], (c3 if xy else None), level)
+
+
+class RenderMismatch(Exception):
+    """The objects under test do not carry what the program configured."""
 
 
 def atom_values(info: Rendered, t: int):
@@ -933,7 +1012,12 @@ def run_case(model: Model, case: dict, verbose: bool = False) -> CaseResult:
     from pulser_simulation import QutipEmulator
 
     seq, reg, device, ops, rejected = build_padded(case)
-    info = render(seq)
+    try:
+        info = render(seq, case, ops)
+    except RenderMismatch as e:
+        res = CaseResult("ok", None, ops, rejected)
+        res.fails.append(dict(t=0, clause="dmm-weights", key={"clause": "dmm-weights"}, msg=str(e)))
+        return res
     res = CaseResult("ok", info, ops, rejected)
     if info.T < 4:
         res.status = "short"
